@@ -25,6 +25,14 @@ class Ang:
             return NotImplemented
         return Ang((self.t + o.t) / (1 - self.t * o.t))     # ZeroDivisionError at pi
 
+    def __sub__(self, o):
+        if not isinstance(o, Ang):
+            return NotImplemented
+        return Ang((self.t - o.t) / (1 + self.t * o.t))
+
+    def __neg__(self):
+        return Ang(-self.t)
+
     def __repr__(self):
         return 'Ang(%s)' % self.t
 
